@@ -117,6 +117,7 @@ def C03(ctx):
         cases += ctx.export('FamilyR(p, %d)' % n)
     ctx.res.cov['exhaustive'] = True
     ctx.res.cov['fault_points'] = sum(n_fault_points(c) for c in cases)
+    ctx.design_inject(cases, maxcalls=3, label='family R n<=3 ')
     ctx.run(cases, nontrivial=nt, runtime=True, switches=E_C)
     big = ctx.export('FamilyR(p, 4)', pre_sample=300 if ctx.quick else None)
     ctx.res.cov['fault_points'] += sum(n_fault_points(c) for c in big)
@@ -140,6 +141,7 @@ def C04(ctx):
     for n in (1, 2, 3):
         cases += ctx.export('FamilyR(p, %d)' % n)
     ctx.res.cov['exhaustive'] = True
+    ctx.design_inject(cases, maxcalls=2, label='family R n<=3 ')
     ctx.run(only_success(cases), nontrivial=nt, runtime=True, switches=(False, False, True))
     big = ctx.export('FamilyR(p, 4)', pre_sample=500 if ctx.quick else None)
     ctx.run(only_success(big), nontrivial=nt, runtime=True, switches=(False, False, True))
@@ -223,6 +225,7 @@ def C11(ctx):
     ctx.res.cov['exhaustive'] = not ctx.quick
     if ctx.quick:
         cases = ctx.sample(cases, 450)
+    ctx.design_inject(cases, maxcalls=2, label='family B ')
     ctx.run(cases, runtime=True, switches=W_ONLY)
     ctx.rules.append('family X: binding an interface to an interface that lacks a method, an injector that returns one of several arguments through a binding without calling any provider, '
                      'two sets sharing their first import of which only one provides the bound type')
@@ -237,6 +240,7 @@ def C12(ctx):
                      'all others zero; F is the field of the provided struct and *F aliases it (pointer ordinals)')
     cases = ctx.export('FamilyS(p)')
     ctx.res.cov['exhaustive'] = True
+    ctx.design_inject(cases, maxcalls=2, label='family S ')
     ctx.run(cases, runtime=True, switches=W_ONLY)
 
 
